@@ -17,7 +17,9 @@ import (
 	"go.nanomsg.org/mangos/v3/protocol/sub"
 	"go.nanomsg.org/mangos/v3/protocol/surveyor"
 	_ "go.nanomsg.org/mangos/v3/transport/inproc"
+	"go.nanomsg.org/mangos/v3/vh/c03"
 	"go.nanomsg.org/mangos/v3/vh/c06"
+	"go.nanomsg.org/mangos/v3/vh/c07"
 	"go.nanomsg.org/mangos/v3/vh/c08"
 	"go.nanomsg.org/mangos/v3/vh/c19"
 	"go.nanomsg.org/mangos/v3/vh/kinds"
@@ -34,6 +36,17 @@ import (
 var sizes = []int{0, 1, 63, 64, 65, 127, 128, 129, 255, 256, 257, 511, 512, 513, 1023, 1024, 1025, 4095, 4096, 4097, 8191, 8192, 8193, 65535, 65536, 65537}
 
 func init() {
+	// C01: a message sent from a zero-copy body (Message.Body pointed at the application's own
+	// buffer) arrives unchanged, and so does everything sent afterwards from that buffer: the library
+	// never writes into it (no later message is assembled there)
+	vexplore.Register("C01", func(tier string) []*vexplore.Scenario {
+		return []*vexplore.Scenario{
+			{Name: "send-with-an-application-owned-body", Mode: "enum", Reset: kit.ResetGlobals, Body: appOwnedBody, NeedCounters: []string{"application-buffer-left-alone"}},
+		}
+	})
+}
+
+func init() {
 	vexplore.Register("C17", func(tier string) []*vexplore.Scenario {
 		b := 2
 		if tier == "thorough" {
@@ -48,6 +61,9 @@ func init() {
 				NeedCounters: []string{"send-ok", "send-timeout-intact", "send-closed-intact", "send-nopeers-intact", "send-besteffort"}},
 			{Name: "request-released-before-the-reply", Mode: "enum", Reset: kit.ResetGlobals, Body: replyAfterRelease, NeedCounters: []string{"reply-routed-after-release"}},
 			{Name: "send-app-cloned-message", Mode: "enum", Reset: kit.ResetGlobals, Body: sendCloned, NeedCounters: []string{"cloned-send-ok"}},
+			{Name: "surveyor-shared-message-sent-on-two-contexts", Mode: "sched", Bound: b, Reset: kit.ResetGlobals, Body: func() { ledger.Install(); c07.SchedSharedMessage() }},
+			{Name: "req-shared-message-sent-on-two-contexts", Mode: "sched", Bound: b, Reset: kit.ResetGlobals, Body: func() { ledger.Install(); c03.SchedSharedMessage() }},
+			{Name: "send-with-an-application-owned-body", Mode: "enum", Reset: kit.ResetGlobals, Body: appOwnedBody, NeedCounters: []string{"application-buffer-left-alone"}},
 			{Name: "newmessage-shape", Mode: "enum", Reset: kit.ResetGlobals, Body: newShape},
 			{Name: "one-publication-several-sub-contexts-message-api", Mode: "enum", Reset: kit.ResetGlobals, Body: func() { ledger.Install(); c06.SharedPublication() }, NeedCounters: []string{"three-or-more-receivers-each-exact"}},
 			{Name: "fanout-pubsub-inproc", Mode: "sched", Bound: b, Cfg: pool, Reset: kit.ResetGlobals, Body: fanoutPubSub},
@@ -489,6 +505,71 @@ func sendCloned() {
 	m.Free()
 	kit.Count("cloned-send-ok")
 	kit.Observe("%s", k.Name)
+	kit.Must("Close", func() { _ = x.S.Close() })
+	kit.Quiesce()
+}
+
+// appOwnedBody: the application points Message.Body at a window of a larger buffer of its own (zero
+// copy) and sends with SendMsg.  The library may read those bytes until the message is transmitted;
+// it never writes into the application's buffer, and once the message is released the buffer is the
+// application's alone: messages allocated afterwards - of every size class - live elsewhere.
+func appOwnedBody() {
+	var ks []*kinds.Kind
+	for _, k := range kinds.All {
+		if k.CanSend {
+			ks = append(ks, k)
+		}
+	}
+	k := ks[kit.ChooseFree(len(ks))]
+	win := [][2]int{{100, 400}, {0, 16}, {4096, 4096 + 5000}, {10, 10}}[kit.ChooseFree(4)]
+	ledger.Install()
+	x := k.Open("c17own", true, false)
+	x.Quiet()
+	arena := make([]byte, 16384)
+	for i := range arena {
+		arena[i] = byte('A' + i%23)
+	}
+	want := string(arena)
+	x.PrepSend()
+	m := x.Msg("")
+	m.Body = arena[win[0]:win[1]]
+	body := string(m.Body)
+	c := kit.Start("SendMsg", func() (interface{}, error) { return nil, x.S.SendMsg(m) })
+	kit.Quiesce()
+	if !c.Done() || c.Err != nil {
+		kit.Failf("app-owned-send:"+k.Name, "%s: SendMsg done=%v %s", k.Name, c.Done(), kit.ErrName(c.Err))
+	}
+	found := false
+	for _, sm := range x.P.SentLog() {
+		if string(sm.Data[sm.HLen:]) == body || (len(sm.Data) >= len(body) && string(sm.Data[len(sm.Data)-len(body):]) == body) {
+			found = true
+		}
+	}
+	if !found && k.Name != "rep" && k.Name != "respondent" {
+		kit.Failf("app-owned-send-lost:"+k.Name, "%s: the message whose body was the application's own slice (%d bytes) did not reach the peer unchanged", k.Name, len(body))
+	}
+	// traffic and allocations of every size class afterwards
+	var held []*mangos.Message
+	for round := 0; round < 2; round++ {
+		for _, sz := range sizes {
+			n := mangos.NewMessage(sz)
+			n.Body = append(n.Body, bytes.Repeat([]byte{'#'}, sz)...)
+			n.Header = append(n.Header, '#', '#', '#', '#')
+			held = append(held, n)
+		}
+	}
+	if string(arena) != want {
+		i := 0
+		for i < len(arena) && arena[i] == want[i] {
+			i++
+		}
+		kit.Failf("application-buffer-overwritten:"+k.Name, "%s: a message whose Body was a window [%d:%d] of the application's own 16 KiB buffer was sent with SendMsg and released; messages allocated afterwards were written into that buffer (first change at offset %d)", k.Name, win[0], win[1], i)
+	}
+	for _, n := range held {
+		n.Free()
+	}
+	kit.Count("application-buffer-left-alone")
+	kit.Observe("%s %v", k.Name, win)
 	kit.Must("Close", func() { _ = x.S.Close() })
 	kit.Quiesce()
 }
